@@ -14,7 +14,7 @@ def claim(i, cat, technique, text, note, ref):
 
 claim("C03", "exploration",
  "runtime monitor: round-trip/range oracle over Arch.Assembler, Decode_opcode, Machine.Disassembler on generated instruction lines",
- "Runs the real assembler/disassembler on 150 (quick) / 3000 (thorough) sampled architectures (Rsize, R, N, M, L, O, mode, opcode subset incl. dynamic families, shared-object counts, WordSize override) and, per opcode, every in-range operand tuple when the field product is small (else boundary+random in several literal notations) plus lines with one operand out of range. Oracle: error, or |word| = Max_word, decodes to the opcode, disasm equals the line token-wise, asm(disasm(w)) = w; out-of-range must be an error.",
+ "Runs the real assembler/disassembler on 150 (quick) / 3000 (thorough) sampled architectures (Rsize, R, N, M, L, O, mode, opcode subset incl. dynamic families, shared-object counts, WordSize override) and, per opcode, every in-range operand tuple when the field product is small (else boundary+random in several literal notations) plus lines with one operand out of range (index = count, count+1, 2^bits; numbers beyond the field) or malformed (negative, signed, padded or empty index after the name prefix). Oracle: error, or |word| = Max_word, decodes to the opcode, disasm equals the line token-wise, asm(disasm(w)) = w; out-of-range must be an error.",
  "Trusted: /verif's operand-signature table (internal/gen/opsig.go). In-range lines that are rejected are only tallied. A surplus word after an operand-less mnemonic is outside the statement and only tallied.",
  "§3 C03")
 claim("C08", "exploration",
